@@ -43,6 +43,7 @@ THEOREMS = [
     # merge join
     "groupByKeys_eq_runs", "groupByKeys_empty_keys", "mergejoin_groups_sorted", "merge_eq_hash_empty_keys_unsound",
     "mergeLoop_left", "mergejoin_inner_sorted", "merge_eq_hash_inner", "merge_eq_hash_left_outer",
+    "mergeLoop_perm", "mergejoin_sorted_perm", "hashjoin_perm", "merge_eq_hash",
     "saLoop_runs", "sortagg_runs", "hashagg_eq_sortagg", "hashagg_eq_sortagg_unsorted_unsound",
 ]
 
